@@ -761,6 +761,13 @@ func (tr *gtTr) call(c *ast.CallExpr, env *venv) ex {
 			return ex{binds: mergeBinds(a.binds, []gbind{{o, "val_string " + a.code}}), code: o, typ: tString}
 		}
 	}
+	// re.ReplaceAllString(src, repl) on a package-level `var re = regexp.MustCompile(<constant>)` that nothing assigns:
+	// regular expressions are not modelled, the method stays a parameter re_<var>_ReplaceAllString : bstr -> bstr -> bstr
+	// (one per variable, so the ORDER of several replacements and their templates are translated), and the pattern
+	// text is emitted as src_<pkg>_<var>_pattern for the lemma that names the matcher it is instantiated with
+	if e, ok := tr.regexpMethod(c, env); ok {
+		return e
+	}
 	// x.M() on a parameter of a /repo interface type: the value is a parameter of the translated function
 	if e, ok := tr.ifaceMethod(c, env); ok {
 		return e
@@ -1069,6 +1076,15 @@ func (tr *gtTr) library(pkg, name string, c *ast.CallExpr, env *venv) ex {
 		pn := "f_strings_" + name
 		tr.fn.addAbstract(gtAbstract{name: pn, typ: "bstr -> bstr"})
 		return ex{binds: a.binds, code: "(" + pn + " " + a.code + ")", typ: a.typ}
+	case pkg == "text/template" && name == "HTMLEscapeString":
+		// library code, modelled by hand (Model/Escape.v): the function stays a parameter
+		need(1)
+		a := tr.expr(c.Args[0], env)
+		if a.typ.kind != kString {
+			gtFail("%s of a non-string", full)
+		}
+		tr.fn.addAbstract(gtAbstract{name: "f_template_HTMLEscapeString", typ: "bstr -> bstr"})
+		return ex{binds: a.binds, code: "(f_template_HTMLEscapeString " + a.code + ")", typ: tString}
 	case pkg == "strings" && (name == "Replace" || name == "ReplaceAll"):
 		if name == "Replace" {
 			need(4)
@@ -1655,4 +1671,69 @@ func (tr *gtTr) bufferStmt(c *ast.CallExpr, env *venv, next cont) (gnode, bool) 
 		val = ex{binds: a.binds, code: "(" + cur + " ++ " + a.code + ")", typ: tBuffer}
 	}
 	return tr.bindNew(env, name, val, false, next), true
+}
+
+func (tr *gtTr) regexpMethod(c *ast.CallExpr, env *venv) (ex, bool) {
+	sel, ok := c.Fun.(*ast.SelectorExpr)
+	if !ok || sel.Sel.Name != "ReplaceAllString" || len(c.Args) != 2 {
+		return ex{}, false
+	}
+	id, ok := unparen(sel.X).(*ast.Ident)
+	if !ok || env.lookup(id.Name) != nil {
+		return ex{}, false
+	}
+	vs, isVar := tr.p.vars[id.Name]
+	if !isVar {
+		return ex{}, false
+	}
+	var init ast.Expr
+	for i, n := range vs.Names {
+		if n.Name == id.Name && i < len(vs.Values) {
+			init = vs.Values[i]
+		}
+	}
+	mc, isCall := init.(*ast.CallExpr)
+	if !isCall || len(mc.Args) != 1 {
+		return ex{}, false
+	}
+	msel, isSel := mc.Fun.(*ast.SelectorExpr)
+	q, isId := func() (*ast.Ident, bool) {
+		if !isSel {
+			return nil, false
+		}
+		q, ok := msel.X.(*ast.Ident)
+		return q, ok
+	}()
+	vf := tr.p.varIn[id.Name]
+	if !isId || importOf(vf, q.Name) != "regexp" || msel.Sel.Name != "MustCompile" {
+		return ex{}, false
+	}
+	pv, _, okc := tr.g.constEval(tr.p, vf, mc.Args[0], -1, nil)
+	if !okc || pv.Kind() != constant.String {
+		gtFail("%s: the pattern of regexp.MustCompile is not a constant string", id.Name)
+	}
+	if assignedElsewhere(tr.p, id.Name) {
+		gtFail("package variable %s is assigned to somewhere in the package", id.Name)
+	}
+	patName := "src_" + tr.p.name + "_" + id.Name + "_pattern"
+	if _, done := tr.st.tables[patName]; !done {
+		tr.st.tables[patName] = tString
+		tr.st.pending = append(tr.st.pending, fmt.Sprintf("(* %s: var %s = regexp.MustCompile(%s): the pattern text *)\nDefinition %s : bstr := %s.\n",
+			tr.p.dir, id.Name, strings.ReplaceAll(gtExprTextLit(mc.Args[0]), "*)", "* )"), patName, bstrLit(constant.StringVal(pv))))
+	}
+	args, binds := tr.args(c.Args, env)
+	if args[0].typ.kind != kString || args[1].typ.kind != kString {
+		gtFail("%s.ReplaceAllString: arguments are not strings", id.Name)
+	}
+	pn := "re_" + id.Name + "_ReplaceAllString"
+	tr.fn.addAbstract(gtAbstract{name: pn, typ: "bstr -> bstr -> bstr"})
+	return ex{binds: binds, code: "(" + pn + " " + args[0].code + " " + args[1].code + ")", typ: tString}, true
+}
+
+// gtExprTextLit: a literal as it is written (for comments)
+func gtExprTextLit(e ast.Expr) string {
+	if bl, ok := e.(*ast.BasicLit); ok {
+		return bl.Value
+	}
+	return gtExprText(e)
 }
